@@ -18,6 +18,25 @@ def _canon_names(names):
     return mapping
 
 
+def alpha_canonical(pj):
+    """the normalised program (model AST) with its generated auxiliary names replaced, in order of first occurrence, by
+    history-independent ones; two programs with equal canonical forms are injective renamings of each other that fix every
+    source name (hypotheses of Polar.Ren.aux_names_irrelevant)"""
+    import json
+    if pj is None:
+        return None
+    text = json.dumps(pj)
+    mapping = {}
+
+    def sub(m):
+        nm = m.group(1)
+        if nm not in mapping:
+            pre = re.fullmatch(r"_([A-Za-z]+?)(\d+)", nm).group(1)
+            mapping[nm] = f"_{pre}#{sum(1 for v in mapping.values() if v.startswith('_' + pre + '#'))}"
+        return '"' + mapping[nm] + '"'
+    return re.sub(r'"(_[A-Za-z]+?\d+)"', sub, text)
+
+
 def summarize(res):
     out = {"accepted": res.get("accepted")}
     if not res.get("accepted"):
@@ -28,6 +47,8 @@ def summarize(res):
     mp = _canon_names(list(td.keys()))
     # renamed versions of source variables (_x1) keep their base name
     out["types"] = sorted((mp.get(k, k), sorted(v)) for k, v in td.items())
+    if "program_json" in res:
+        out["program"] = alpha_canonical(res["program_json"])
     goals = []
     for g in res.get("goals", []):
         if g.get("ok"):
@@ -45,7 +66,7 @@ def session(jobs):
     for j in jobs:
         try:
             r = analyze(j["text"], j["goals"], j.get("subs"), j.get("nmax", 4), j.get("settings"),
-                        j.get("force_cyclic", False))
+                        j.get("force_cyclic", False), want_program_json=True)
             out.append([j["key"], summarize(r)])
         except Exception as e:  # noqa
             out.append([j["key"], {"crash": type(e).__name__}])
